@@ -396,3 +396,48 @@ def gen_header_case(rng: random.Random) -> dict:
     return {'output_format': fmt, 'macro_name': macro, 'data': data, 'desc': desc,
             'shape': ('header', fmt, bool(macro), len(keys),
                       tuple(sorted(type(v).__name__ for v in data.values())), bool(desc))}
+
+
+# ---- sequences on ONE configuration_data() object ---------------------------------------------------
+SEQ_VALUES_STR = ['"string"', 'a_token', '', 'two words', '@FOO@', '${BAR}', 'x\\y', '1', 'v2']
+
+
+def _seq_value(rng: random.Random) -> T.Any:
+    r = rng.random()
+    if r < 0.45:
+        return rng.choice(SEQ_VALUES_STR)
+    if r < 0.75:
+        return rng.choice([0, 1, 42, -3, 7])
+    return rng.random() < 0.5
+
+
+def _seq_entries(rng: random.Random, keys: T.Sequence[str]) -> T.Dict[str, T.Tuple[T.Any, T.Optional[str]]]:
+    out: T.Dict[str, T.Tuple[T.Any, T.Optional[str]]] = {}
+    for k in keys:
+        out[k] = (_seq_value(rng), ('about ' + k) if rng.random() < 0.25 else None)
+    return out
+
+
+def gen_sequence(rng: random.Random) -> T.List[T.Tuple[T.Any, ...]]:
+    """A history of one configuration_data() object: initial entries (set/set10/set_quoted are only
+    allowed before the first use), then 3-5 steps, each an optional merge_from() of another object
+    (new keys and overriding ones; merge_from is the mutator that still works after the object was
+    used) followed by one configure_file(): a template-less c / nasm / json header or a meson template
+    naming every key of the universe.  Ops:
+       ('init', entries)  ('merge', entries)  ('emit', kind, macro_name)   kind: c | nasm | json | template"""
+    universe = rng.sample(HEADER_KEYS, rng.randint(4, 9))
+    rng.shuffle(universe)
+    n0 = rng.randint(0, max(1, len(universe) // 2))
+    ops: T.List[T.Tuple[T.Any, ...]] = [('init', _seq_entries(rng, universe[:n0]))]
+    nsteps = rng.randint(3, 5)
+    for step in range(nsteps):
+        if step > 0 and rng.random() < 0.8 or step == 0 and rng.random() < 0.2:
+            ks = rng.sample(universe, rng.randint(1, min(3, len(universe))))
+            ops.append(('merge', _seq_entries(rng, ks)))
+        kind = rng.choice(['c', 'c', 'c', 'nasm', 'json', 'template', 'template'])
+        if step == nsteps - 1 and rng.random() < 0.7:
+            kind = rng.choice(['c', 'nasm'])
+        macro = rng.choice([None, None, 'SEQ_GUARD_H']) if kind == 'c' else None
+        ops.append(('emit', kind, macro))
+    ops.append(('universe', list(universe)))
+    return ops
